@@ -412,6 +412,10 @@ func randomD(r *rand.Rand, pal *palette, maxTips int) []dNode {
 		if len(s.Ch) == 0 && r.Intn(5) == 0 {
 			n.Nm = nameP[r.Intn(len(nameP))] + strconv.Itoa(len(d))
 		}
+		if len(s.Ch) > 0 && n.Nm != "" && r.Intn(3) == 0 {
+			// inner names that begin like a support or a support/p-value but are not numeric
+			n.Nm = []string{"0.5/abc", "12/B.1", "1e-3x", "0.9/0.1/0.2", "7/q"}[r.Intn(5)] + strconv.Itoa(len(d))
+		}
 		for _, c := range s.Cm {
 			n.Cm = append(n.Cm, c)
 		}
